@@ -29,7 +29,10 @@ def run(prog, ctx):
     res.rule("C07.entry", (1 if upd else 0) + (1 if mrg else 0), 2, "FrequentItemsSketch::update_with_count, merge")
     if not upd or not mrg:
         return res
-    reach = C.reach_from(prog, [upd, mrg, C.pub_fn(prog, F, "new")])
+    # the readers rebuild the map from an image: their insertions are held to the same capacity discipline (a table filled past its
+    # load limit makes the open-addressing probe run forever or hit the drift limit)
+    readers = [f for f in prog.fns.values() if not f.promoted and f.owner == F and (f.item_name or "").startswith("deserialize")]
+    reach = C.reach_from(prog, [upd, mrg, C.pub_fn(prog, F, "new")] + sorted(readers, key=lambda f: f.id))
     res.functions_analysed = len(reach)
     res.entry_points = [upd.id, mrg.id]
 
@@ -436,6 +439,8 @@ def run(prog, ctx):
             if not bad_:
                 res.discharged += 1
     res.rule("C07.I", n_i, 3, "probe index used before the map can be reallocated")
+    # ---------------- C07.N a decision taken after an insertion looks at the count after it (common.stale_count_decisions)
+    C.stale_count_rule(res, prog, "C07.N", "frequencies::", "frequent-items map")
     res.explanation = ("structural and formula rules over the %d functions reachable from FrequentItemsSketch::{new,update_with_count,merge}: merge "
                        "conservation with its guard, bound accessor formulas, purge flow, resize-or-purge after every insertion, sizing formulas "
                        "evaluated for lg 0..=31" % len(reach))
